@@ -501,9 +501,9 @@ def apply_muts(text, muts):
             j = (i + cnt) % len(strs)
             strs[i], strs[j] = strs[j], strs[i]
         elif op == "repl":
-            strs[i] = _REPL[arg]
+            strs[i] = _REPL[arg % len(_REPL)]
         elif op == "ins":
-            strs.insert(i, _REPL[arg])
+            strs.insert(i, _REPL[arg % len(_REPL)])
         elif op == "delrange":
             del strs[i:i + cnt]
         elif op == "trunc":
